@@ -242,6 +242,7 @@ def run(chk, tier):
     # (it would be a destructor of an arena value running inside a callback)
     from gcv import rules_builder
     rules_builder.value_moved_into_block(chk, model.Program(fx["default"], "default"))
+    rules_builder.block_exposed_only_after_disarm(chk, model.Program(fx["default"], "default"))
     chk.extra["K"] = K
 
 
